@@ -731,6 +731,172 @@ def gen_order_lines(rng):
     return [b"web 300 IN " + x for x in recs]
 
 
+# ------------------------------------------------------------------ $INCLUDE scripts (reference interpretation)
+
+
+def _rr_ttl(s, ttl, soa_min):
+    """the TTL a record gets (Reader._rr_line): explicit, else $TTL/SOA-minimum default, else the last
+    explicit TTL; an SOA met while no default is known sets the default to its minimum"""
+    if ttl is not None:
+        t = ttl
+        s["last"] = ttl
+    elif s["default"] is not None:
+        t = s["default"]
+    else:
+        t = s["last"]
+    if soa_min is not None and s["default"] is None:
+        s["default"] = soa_min
+        if t is None:
+            t = soa_min
+    return t
+
+
+def gen_include_case(rng, max_depth=2):
+    """a zone spread over a main file and (nested) $INCLUDEd files, with the reader state that $INCLUDE saves
+    and restores made observable: $TTL set / unset (SOA minimum, last explicit TTL), explicit TTLs before the
+    $INCLUDE and inside the included file, TTL-less and owner-less records after it, $ORIGIN and $TTL changes
+    inside the included file.  Returns (origin, files, explicit, inlined): files[0] is the main file, the
+    others are referred to as @@FILEk@@; `explicit` spells every record with absolute names and its TTL;
+    `inlined` is the main file with the included text put in place of the directives, the directives that
+    restore origin and default TTL after it, and inherited owner / TTL only where the one-file reader state
+    agrees with the state $INCLUDE restores."""
+    origin = rng.choice([[b"example", b""], [b"zone-1", b"test", b""], [b"x", b""]])
+    ttls = [5, 60, 300, 1234, 3600, 7200, 86400]
+    files = [None]
+    explicit = []
+    cnt = [0]
+    soa_where = rng.choice([0, 0, 0, 0, 1, 1, 2])    # main file / an included file / no SOA
+    soa_done = [False]
+    ist = {"origin": origin, "name": origin, "last": None, "default": None}   # the one-file reader
+
+    def under(o):
+        return [rng.choice([b"sub", b"s2", b"deep-1"])] + o
+
+    def record(st, depth, force_soa=False):
+        cnt[0] += 1
+        n = cnt[0]
+        # owner
+        r = rng.random()
+        if force_soa:
+            owner = origin
+            otext = b"@" if st["origin"] == origin and rng.random() < 0.5 else name_text(origin)
+        elif r < 0.35:
+            owner, otext = st["name"], None                      # inherited
+        elif r < 0.7:
+            lab = rng.choice([b"a", b"b", b"www", b"mail", b"h%d" % n])
+            owner, otext = [lab] + st["origin"], lab
+        elif r < 0.85:
+            owner = [b"abs%d" % (n % 3)] + origin
+            otext = name_text(owner)
+        else:
+            owner, otext = st["origin"], b"@"
+        # rdata
+        soa_min = None
+        if force_soa:
+            soa_min = rng.choice([300, 900, 10800])
+            ty = b"SOA"
+            rd_rel = b"ns hostmaster 1 7200 900 1209600 %d" % soa_min
+            rd_abs = name_text([b"ns"] + st["origin"]) + b" " + name_text([b"hostmaster"] + st["origin"]) + \
+                b" 1 7200 900 1209600 %d" % soa_min
+        else:
+            k = rng.random()
+            if k < 0.5:
+                ty, rd_rel = b"A", b"192.0.2.%d" % (n % 250)
+                rd_abs = rd_rel
+            elif k < 0.7:
+                ty, rd_rel = b"NS", b"ns%d" % n
+                rd_abs = name_text([rd_rel] + st["origin"])
+            elif k < 0.85:
+                ty, rd_rel = b"MX", b"%d mx%d" % (n % 50, n)
+                rd_abs = b"%d " % (n % 50) + name_text([b"mx%d" % n] + st["origin"])
+            else:
+                ty, rd_rel = b"TXT", b"\"t%d\"" % n
+                rd_abs = rd_rel
+        # TTL
+        ttl = rng.choice(ttls) if rng.random() < 0.45 else None
+        probe = dict(st)
+        if _rr_ttl(probe, ttl, soa_min) is None:
+            ttl = rng.choice(ttls)
+        t = _rr_ttl(st, ttl, soa_min)
+        st["name"] = owner
+        cls = rng.choice([b"IN ", b""])
+        line = (otext if otext is not None else b"") + b" " + (b"%d " % ttl if ttl is not None else b"") + cls + ty + b" " + rd_rel + b"\n"
+        explicit.append(name_text(owner) + b" %d IN " % t + ty + b" " + rd_abs + b"\n")
+        # the same record in the one-file spelling
+        io = otext
+        if otext is None and ist["name"] != owner:
+            io = name_text(owner)
+        probe = dict(ist)
+        it = ttl
+        if _rr_ttl(probe, ttl, soa_min) != t:
+            it = t
+        _rr_ttl(ist, it, soa_min)
+        ist["name"] = owner
+        iline = (io if io is not None else b"") + b" " + (b"%d " % it if it is not None else b"") + cls + ty + b" " + rd_rel + b"\n"
+        return line, iline
+
+    def block(st, depth):
+        text, inl = b"", b""
+        n_items = rng.randint(2, 5)
+        included = False
+        for i in range(n_items + 1):
+            want_soa = (not soa_done[0]) and ((soa_where == 0 and depth == 0 and i <= 1) or (soa_where == 1 and depth >= 1))
+            r = rng.random()
+            if want_soa and (i == 1 or depth >= 1 or r < 0.6):
+                soa_done[0] = True
+                a, b = record(st, depth, force_soa=True)
+            elif r < 0.12:
+                v = rng.choice(ttls)
+                st["default"] = v
+                ist["default"] = v
+                a = b = b"$TTL %d\n" % v
+            elif r < 0.22:
+                o = rng.choice([origin, under(origin), under(st["origin"])])
+                if not nl.fits([b"x" * 12] + o):
+                    o = origin
+                st["origin"] = o
+                ist["origin"] = o
+                a = b = b"$ORIGIN " + name_text(o) + b"\n"
+            elif depth < max_depth and (r < 0.45 or (depth == 0 and not included and i >= n_items - 1)):
+                included = True
+                child = dict(st)
+                k = rng.random()
+                if k < 0.4:
+                    arg, b0 = b"", b""
+                elif k < 0.7:
+                    child["origin"] = under(origin)
+                    arg = b" " + name_text(child["origin"])
+                    b0 = b"$ORIGIN" + arg + b"\n"
+                else:
+                    lab = rng.choice([b"inc", b"part-2"])          # relative to the current origin
+                    child["origin"] = [lab] + st["origin"]
+                    arg = b" " + lab
+                    b0 = b"$ORIGIN " + name_text(child["origin"]) + b"\n"
+                if not nl.fits([b"x" * 12] + child["origin"]):
+                    child["origin"], arg, b0 = st["origin"], b"", b""
+                ist["origin"] = child["origin"]
+                ctext, cinl = block(child, depth + 1)
+                files.append(ctext)
+                idx = len(files) - 1
+                a = b"$INCLUDE @@FILE%d@@" % idx + arg + b"\n"
+                # after the included text: what $INCLUDE restores and directives can express
+                b = b0 + cinl + b"$ORIGIN " + name_text(st["origin"]) + b"\n"
+                ist["origin"] = st["origin"]
+                if st["default"] is not None:
+                    b += b"$TTL %d\n" % st["default"]
+                    ist["default"] = st["default"]
+            else:
+                a, b = record(st, depth)
+            text += a
+            inl += b
+        return text, inl
+
+    st = {"origin": origin, "name": origin, "last": None, "default": None}
+    main, inlined = block(st, 0)
+    files[0] = main
+    return origin, files, b"".join(explicit), inlined
+
+
 def mutate_text(rng, text):
     b = bytearray(text)
     if not b:
@@ -1086,6 +1252,13 @@ def cases(ctx):
         flat = main1 + (b"$ORIGIN " + name_text(inc_origin) + b"\n" if inc_origin is not None else b"") + inc + \
             (b"$ORIGIN " + name_text(origin) + b"\n" if inc_origin is not None else b"") + main2
         yield "respell-include", [25, origin, int(rel), main1, inc_origin, inc, main2, flat]
+    # $INCLUDE scripts: main file + nested included files against the explicit and the inlined spelling
+    # (names, rdatas AND TTLs), from_text(allow_include=True) and from_file
+    for i in range(ctx.n(150, 2500)):
+        origin, files, explicit, inlined = gen_include_case(rng)
+        if len(files) < 2:
+            continue
+        yield "respell-include-state", [28, origin, int(rng.random() < 0.5), files, explicit, inlined]
     # $UNICODE (oracle only): UTF-8 TXT data and IDNA owner names survive write-then-read
     for i in range(ctx.n(30, 300)):
         origin = [b"example", b""]
@@ -1276,6 +1449,42 @@ def impl(case):
                 os.rmdir(d)
             z3 = load(flat, case[1], case[2])
             return [int(z1 == z3), int(zcanon(z1) == zcanon(z3)), int(z2 == z3), int(zcanon(z2) == zcanon(z3))]
+        if op == 28:
+            files, explicit, inlined = case[3], case[4], case[5]
+            o, rel = oname(case[1]), bool(case[2])
+            d = tempfile.mkdtemp(prefix="c09inc")
+            try:
+                paths = [os.path.join(d, "f%d.zone" % k) for k in range(len(files))]
+                for k, t in enumerate(files):
+                    for j, pth in enumerate(paths):
+                        t = t.replace(b"@@FILE%d@@" % j, pth.encode())
+                    with open(paths[k], "wb") as f:
+                        f.write(t)
+                    if k == 0:
+                        main = t
+                loaders = [
+                    lambda: dns.zone.from_text(main.decode("latin-1"), origin=o, relativize=rel, allow_include=True, check_origin=False),
+                    lambda: dns.zone.from_file(paths[0], origin=o, relativize=rel, check_origin=False),
+                    lambda: dns.zone.from_text(explicit.decode("latin-1"), origin=o, relativize=rel, check_origin=False),
+                    lambda: dns.zone.from_text(inlined.decode("latin-1"), origin=o, relativize=rel, check_origin=False),
+                ]
+                zs, codes = [], []
+                for ld in loaders:
+                    try:
+                        zs.append(ld())
+                        codes.append(0)
+                    except Exception as e:  # noqa
+                        zs.append(None)
+                        codes.append(exc_code(e).code)
+            finally:
+                for fn in os.listdir(d):
+                    os.unlink(os.path.join(d, fn))
+                os.rmdir(d)
+            if any(codes):
+                return [codes, [], 0]
+            ref = zs[2]
+            nrec = sum(len(r) for node in ref.nodes.values() for r in node.rdatasets)
+            return [codes, [[int(z == ref), int(zcanon(z) == zcanon(ref))] for z in (zs[0], zs[1], zs[3])], nrec]
         if op == 26:
             text = bytes(case[3]).decode("utf-8")
             z = dns.zone.from_text(text, origin=oname(case[1]), relativize=bool(case[2]))
@@ -1391,6 +1600,18 @@ def oracle(ctx, kind, case, out):
     elif op == 25:
         if not all(out):
             fail("$INCLUDE: the split file and the flat file loaded to different zones", sig=kind)
+    elif op == 28:
+        codes, eqs, nrec = out
+        names = ["from_text with $INCLUDE", "from_file with $INCLUDE", "the inlined file"]
+        if any(codes):
+            fail("$INCLUDE family: a well-formed spelling was rejected (codes %r for include/from_file/explicit/inlined)" % (codes,),
+                 sig=kind + "-rejected")
+        else:
+            for nm, (eq, eqd) in zip(names, eqs):
+                if not eq:
+                    fail("%s and the explicit spelling loaded to different zones" % nm, sig=kind)
+                elif not eqd:
+                    fail("%s and the explicit spelling loaded to zones with different TTLs" % nm, sig=kind + "-ttl")
     elif op == 26:
         if not all(out):
             fail("$UNICODE zone changed by write-then-read", sig=kind)
